@@ -36,6 +36,7 @@ type c20Step struct {
 	Content string   `json:"content,omitempty"`
 	Mode    string   `json:"mode,omitempty"`
 	Note    string   `json:"note,omitempty"`
+	NoDirs  bool     `json:"no_dirs,omitempty"` // the directory option is given, with an empty list
 }
 
 type c20Obs struct {
@@ -260,7 +261,7 @@ func childC20(args []string) int {
 	}
 	options := func(st c20Step) []cdi.Option {
 		var opts []cdi.Option
-		if st.Dirs != nil {
+		if st.Dirs != nil || st.NoDirs {
 			opts = append(opts, cdi.WithSpecDirs(st.Dirs...))
 		}
 		if st.Auto != nil {
@@ -308,10 +309,24 @@ func childC20(args []string) int {
 					if len(st.Dirs) > 0 {
 						cdi.DefaultSpecDirs = st.Dirs
 					}
+					if st.Mode == "configure-first" || st.Mode == "configure-twice-first" {
+						// (the directories come with the options: the package defaults are somewhere else)
+						trap := filepath.Join(script.Root, "trap-default")
+						os.MkdirAll(trap, 0o755)
+						os.WriteFile(filepath.Join(trap, "trap.json"), []byte(c20SpecContent("trap")), 0o644)
+						cdi.DefaultSpecDirs = []string{trap}
+					}
 					switch st.Mode {
 					case "configure-first":
 						if err := cdi.Configure(options(st)...); err != nil {
 							obs.Err = err.Error()
+						}
+					case "configure-twice-first":
+						// the options given one by one, before the default cache is used for the first time
+						for _, o := range options(st) {
+							if err := cdi.Configure(o); err != nil {
+								obs.Err = err.Error()
+							}
 						}
 					default:
 						_ = cdi.GetDefaultCache() // default options: auto-refresh on, DefaultSpecDirs
@@ -517,7 +532,7 @@ func checkC20(c *Ctx) {
 		steps = append(steps, c20Step{Op: "warmup"}, c20Step{Op: "baseline"})
 		newStep := c20Step{Op: "new", Dirs: curDirs, Auto: boolp(curAuto)}
 		if useDefault {
-			newStep.Mode = pickStr(r, "configure-first", "get-first")
+			newStep.Mode = pickStr(r, "configure-first", "get-first", "configure-twice-first")
 			if newStep.Mode == "get-first" {
 				// created with the defaults: auto-refresh on unless switched off right away
 			}
@@ -554,7 +569,7 @@ func checkC20(c *Ctx) {
 			fs, curDirs, curAuto = f(root, anchor, pool)
 			steps = append(steps[:2:2], fs...)
 			nconf = 0
-			useDefault = false
+			useDefault = strings.Contains(cs.Name, ":default-cache")
 			sig = append(sig, "catalogue")
 		}
 		for k := 0; k < nconf; k++ {
@@ -661,7 +676,7 @@ func checkC20(c *Ctx) {
 		iObs := len(steps)
 		steps = append(steps, c20Step{Op: "observe", Note: "final"})
 		iFresh := len(steps)
-		steps = append(steps, c20Step{Op: "fresh", Dirs: curDirs, Auto: boolp(curAuto)})
+		steps = append(steps, c20Step{Op: "fresh", Dirs: curDirs, NoDirs: len(curDirs) == 0, Auto: boolp(curAuto)})
 		// a later change in every existing final directory
 		var final []string
 		seenDir := map[string]bool{}
@@ -685,7 +700,7 @@ func checkC20(c *Ctx) {
 		iLater := len(steps)
 		steps = append(steps, c20Step{Op: "observe", Note: "after a later change, second round"})
 		iFresh2 := len(steps)
-		steps = append(steps, c20Step{Op: "fresh", Dirs: curDirs, Auto: boolp(curAuto)})
+		steps = append(steps, c20Step{Op: "fresh", Dirs: curDirs, NoDirs: len(curDirs) == 0, Auto: boolp(curAuto)})
 		iRefreshed := -1
 		if !curAuto {
 			steps = append(steps, c20Step{Op: "refresh"})
@@ -977,6 +992,30 @@ func checkC20(c *Ctx) {
 				c20Step{Op: "query"}), dirs, true
 		}
 	}
+	// catalogue: the package-level default cache gets its options one call at a time before
+	// it is used for the first time (the package defaults point somewhere else)
+	for _, auto := range []bool{false, true} {
+		auto := auto
+		fixed[fmt.Sprintf("cat:options-one-by-one:default-cache:auto=%v", auto)] = func(root, anchor string, pool []string) ([]c20Step, []string, bool) {
+			dirs := []string{anchor, pool[0]}
+			return []c20Step{
+				{Op: "write", Path: filepath.Join(pool[0], "good.json"), Content: c20SpecContent("good")},
+				{Op: "new", Dirs: dirs, Auto: boolp(auto), Mode: "configure-twice-first"},
+			}, dirs, auto
+		}
+	}
+	// catalogue: a cache that has loaded Specs (one valid, one in error) is told to use no
+	// directories at all, and to refresh manually
+	fixed["cat:reconfigured-to-no-directories"] = func(root, anchor string, pool []string) ([]c20Step, []string, bool) {
+		return []c20Step{
+			{Op: "new", Dirs: []string{anchor, pool[0]}, Auto: boolp(true)},
+			{Op: "write", Path: filepath.Join(pool[0], "good.json"), Content: c20SpecContent("good")},
+			{Op: "write", Path: filepath.Join(pool[0], "bad.json"), Content: "{"},
+			{Op: "quiesce"},
+			{Op: "query"},
+			{Op: "configure", NoDirs: true, Auto: boolp(false)},
+		}, []string{}, false
+	}
 	// catalogue: a cache set up during a shortage on directories that hold nothing
 	// (empty, missing): there is nothing to load, yet it has to keep looking, as a
 	// Spec written later must show up
@@ -992,7 +1031,7 @@ func checkC20(c *Ctx) {
 			return []c20Step{{Op: "new", Dirs: dirs, Auto: boolp(false)}, {Op: "exhaust-begin", Mode: "fill"}, {Op: "configure", Auto: boolp(true)}, {Op: "query"}, {Op: "exhaust-end"}, {Op: "query"}}, dirs, true
 		}
 	}
-	c.RunNamed([]string{"cat:held-watcher-across-configure", "cat:all-directories-missing-at-setup:new", "cat:all-directories-missing-at-setup:configure"}, 3, func(cs *Case) { run(cs, -1, false, "") })
+	c.RunNamed([]string{"cat:held-watcher-across-configure", "cat:all-directories-missing-at-setup:new", "cat:all-directories-missing-at-setup:configure", "cat:reconfigured-to-no-directories", "cat:options-one-by-one:default-cache:auto=false", "cat:options-one-by-one:default-cache:auto=true"}, 4, func(cs *Case) { run(cs, -1, false, "") })
 	var shortageCases []string
 	for t := 0; t < 4; t++ {
 		// (":tN": the first observation starts with the N-th kind of query)
